@@ -141,7 +141,14 @@ func stepText(st *hx.Step) string {
 }
 
 // runStepRaw executes one step and returns whether any call reported an error.
-func runStepRaw(x *hx.Exec, st *hx.Step) (bool, string) {
+func runStepRaw(x *hx.Exec, st *hx.Step) (gotErr bool, res string) {
+	defer func() {
+		if r := recover(); r != nil {
+			// the library panicked (e.g. under an injected fault): never acceptable
+			fail("panic", fmt.Sprintf("[%s] panicked instead of reporting an error: %v (storage steps so far: %s)", stepText(st), r, strings.Join(hx.Plan.Trace, ",")), nil)
+			gotErr, res = true, "harness: panic"
+		}
+	}()
 	tr, err := x.RunStep(st)
 	if err != nil {
 		return true, "harness: " + err.Error()
